@@ -27,6 +27,8 @@ SIM_LANES = ["debug", "internal", "omp", "tbb"]
 REAL_STUB = {
     "debug": {"real": ["rkcommon (serial back end)", "libstdc++ (std::thread, condition_variable, future)"],
               "stub": ["pthread/semaphore/futex blocking semantics (scheduler model)", "clock, core count"]},
+    "internalp": {"real": ["rkcommon incl. vendored enkiTS task scheduler built with the guarded knob RKCOMMON_VERIF_PIPESIZE_LOG2=2 (4-slot pipes)", "libstdc++"],
+                 "stub": ["pthread/semaphore/futex blocking semantics (scheduler model)", "clock, core count"]},
     "internal": {"real": ["rkcommon incl. vendored enkiTS task scheduler", "libstdc++"],
                  "stub": ["pthread/semaphore/futex blocking semantics (scheduler model)", "clock, core count"]},
     "omp": {"real": ["rkcommon", "gcc-outlined '#pragma omp parallel for' body", "std::thread paths of schedule/AsyncTask"],
@@ -46,10 +48,10 @@ PROPS = {
     "C12": {"scen": [("c12buf", ["debug"]), ("c12val", ["debug"])], "quick": 24, "thorough": 600},
     "C08": {"scen": [("c08", ["debug"])], "quick": 24, "thorough": 600},
     "C19": {"scen": [("c19", ["debug"])], "quick": 24, "thorough": 600},
-    "C01": {"scen": [("c01", ["internal", "omp", "tbb", "debug"])], "quick": 32, "thorough": 900},
-    "C02": {"scen": [("c02", ["internal", "omp", "tbb", "debug"])], "quick": 32, "thorough": 900},
+    "C01": {"scen": [("c01", ["internal", "internalp", "omp", "tbb", "debug"])], "quick": 32, "thorough": 900},
+    "C02": {"scen": [("c02", ["internal", "internalp", "omp", "tbb", "debug"])], "quick": 32, "thorough": 900},
     "C13": {"scen": [("c13", ["internal", "omp", "tbb", "debug"])], "quick": 28, "thorough": 600},
-    "C20": {"scen": [("c20trace", ["debug"]), ("c20img", ["debug"])], "quick": 24, "thorough": 600},
+    "C20": {"scen": [("c20trace", ["debug"]), ("c20traceg", ["debug"]), ("c20img", ["debug"])], "quick": 24, "thorough": 600},
     "C14": {"scen": [("c14", ["asan"]), ("c14", ["asantbb"])], "quick": 20, "thorough": 600},
     "C15": {"scen": [("c15", ["asan"])], "quick": 20, "thorough": 600},
     "C16": {"scen": [("c16", ["asan"])], "quick": 20, "thorough": 600},
